@@ -184,7 +184,7 @@ fn cfg_eq(a: &Config, b: &Config) -> bool {
 
 /// `set_config(c')` followed by a send: legality rule, no trace on refusal, no
 /// lost loop on acceptance, and no panic afterwards whatever `max_packet_size'`.
-fn set_config_then_send<S: Src>(s: &mut S, new_pkt: usize) {
+fn set_config_then_send<S: Src>(s: &mut S, new_pkt: usize, with_gossip: bool) {
     let mut f = arb_foca(s, Shape::k(1));
     let pre = snap(&f);
     let old_cfg = f.config.clone();
@@ -217,26 +217,31 @@ fn set_config_then_send<S: Src>(s: &mut S, new_pkt: usize) {
     let mut rt = LogRt::new();
     let r2 = f.announce(dst, &mut rt);
     vassert!(r2.is_ok() && rt.ns == 1 && rt.sent[0].len == HDR, "c06: sending after set_config works");
-    let mut rt2 = LogRt::new();
-    let r3 = f.gossip(&mut rt2);
-    vassert!(r3.is_ok(), "c06: gossip after set_config works");
-    let mut d = 0;
-    while d < NS {
-        if d < rt2.ns {
-            vassert!(rt2.sent[d].len <= new_pkt, "c07: datagrams honour the new max_packet_size");
+    if with_gossip {
+        let mut rt2 = LogRt::new();
+        let r3 = f.gossip(&mut rt2);
+        vassert!(r3.is_ok(), "c06: gossip after set_config works");
+        let mut d = 0;
+        while d < NS {
+            if d < rt2.ns {
+                vassert!(rt2.sent[d].len <= new_pkt, "c07: datagrams honour the new max_packet_size");
+            }
+            d += 1;
         }
-        d += 1;
     }
 }
 
 pub fn c06_set_config_same<S: Src>(s: &mut S) {
-    set_config_then_send(s, 32)
+    set_config_then_send(s, 32, false)
+}
+pub fn c06_set_config_gossip<S: Src>(s: &mut S) {
+    set_config_then_send(s, 32, true)
 }
 pub fn c06_set_config_grow<S: Src>(s: &mut S) {
-    set_config_then_send(s, 36)
+    set_config_then_send(s, 36, false)
 }
 pub fn c06_set_config_shrink<S: Src>(s: &mut S) {
-    set_config_then_send(s, 16)
+    set_config_then_send(s, 16, false)
 }
 
 /// `add_broadcast(data)`.
@@ -453,4 +458,58 @@ pub fn c08_accumulating_runtime<S: Src>(s: &mut S) {
         "c08: AccumulatingRuntime yields nothing else");
     vcover!(log.ns == 2, "two datagrams queued");
     vcover!(log.nn == 1 && log.nt == 1 && log.ns == 1, "one of each");
+}
+
+/// The update backlog is keyed by *address* (real `Broadcasts`, no stubs): two
+/// accepted updates for the same address leave exactly the newer one queued;
+/// for different addresses both stay. Addresses are concrete (a symbolic
+/// invalidation makes the real heap intractable), everything else symbolic.
+fn key_by_addr<S: Src>(s: &mut S, same: bool) {
+    use crate::member::{ApplySummary, ConflictResult};
+    let mut sh = Shape::k(0);
+    sh.probe = false;
+    let mut f = arb_foca(s, sh);
+    let a = Id::new(7, s.u8());
+    let b = Id::new(if same { 7 } else { 8 }, s.u8());
+    let ua = crate::Member::new(a, s.u16(), arb_state(s));
+    let ub = crate::Member::new(b, s.u16(), arb_state(s));
+    let ok = ApplySummary {
+        is_active_now: true,
+        apply_successful: true,
+        changed_active_set: false,
+        conflict: ConflictResult::NoConflict,
+    };
+    let mut rt = LogRt::new();
+    let r1 = f.handle_apply_summary(ok.clone(), ua.clone(), true, &mut rt);
+    vassert!(r1.is_ok() && f.updates_backlog() == 1, "c15: an accepted update enters the backlog");
+    let r2 = f.handle_apply_summary(ok, ub.clone(), true, &mut rt);
+    vassert!(r2.is_ok(), "c06: queuing an update never fails with a total codec");
+    let snap = f.updates.verif_snapshot();
+    if same {
+        vassert!(f.updates_backlog() == 1 && snap.len() == 1, "c15: the backlog never holds more than one update per address");
+        let d = &snap[0].1;
+        vassert!(d.len() == MEM && d[1] == b.gen && d[2] == (ub.incarnation() >> 8) as u8 && d[3] == ub.incarnation() as u8 && d[4] == state_tag(ub.state()),
+            "c15: the queued update is always the most recently accepted one");
+        vassert!(snap[0].0 == f.config.max_transmissions.get() as usize, "c15: a fresher update restarts the transmission budget");
+    } else {
+        vassert!(f.updates_backlog() == 2, "c15: updates about different addresses are queued independently");
+    }
+    // with broadcasting disabled nothing is queued
+    let ok2 = ApplySummary {
+        is_active_now: true,
+        apply_successful: true,
+        changed_active_set: false,
+        conflict: ConflictResult::NoConflict,
+    };
+    let before = f.updates_backlog();
+    let r3 = f.handle_apply_summary(ok2, ua, false, &mut rt);
+    vassert!(r3.is_ok() && f.updates_backlog() == before, "c15: applying updates with broadcasting disabled leaves the backlog untouched");
+    vcover!(a.gen != b.gen, "different generations");
+}
+
+pub fn c15_key_same_addr<S: Src>(s: &mut S) {
+    key_by_addr(s, true)
+}
+pub fn c15_key_diff_addr<S: Src>(s: &mut S) {
+    key_by_addr(s, false)
 }
